@@ -151,7 +151,40 @@ def run(tier="quick", seed=0, repo="/repo"):
         after = fs.duck_conn.cursor().execute("select count(*) from information_schema.tables").fetchall()
         ok = ok and before == after
         t.case(f"guard:{db}:{sch}:{sql}", ("guard", db, sch, sql), ok, function="fakesnow.cursor.FakeSnowflakeCursor._execute", case={"db": db, "schema": sch, "sql": sql}, expected=f"{errno}/22000, nothing changed", actual=detail)
-    return t.result(bound=f"histories of length <= {maxlen} over {len(OPS)} statements, 2 connections; {len(GUARDS)} guard cases")
+    # connects in sequence on one instance: every connection lands in its own (database, schema), also when a schema / database of
+    # the same name already exists elsewhere in the instance, in every letter case
+    from .common import new_instance
+
+    CONNECTS = [("db1", "s1"), ("db2", "s1"), ("db2", "s2"), ("DB3", "S1"), ("db1", "S2"), ("db3", "s2")]
+    for order in ([0, 1, 2, 3, 4, 5], [5, 4, 3, 2, 1, 0], [1, 0, 3, 2, 5, 4]):
+        fs = new_instance(repo)
+        conns = []
+        for k in order:
+            db, sch = CONNECTS[k]
+            try:
+                c = fs.connect(db, sch)
+                conns.append((db, sch, c))
+                cur = c.cursor()
+                cur.execute("select current_database(), current_schema()")
+                here = cur.fetchall()
+                cur.execute("create table if not exists marker (w varchar)")
+                cur.execute(f"insert into marker values ('{db.lower()}.{sch.lower()}')")
+                ok = here == [(db.upper(), sch.upper())] and (c.database, c.schema) == (db.upper(), sch.upper())
+                detail = f"CURRENT = {here}, conn = {(c.database, c.schema)}"
+            except Exception as e:  # noqa: BLE001
+                ok, detail = False, f"{type(e).__name__}: {str(e)[:160]}"
+            t.case(f"connect-seq:{'-'.join(map(str, order))}:{db}.{sch}", ("connect-seq", tuple(order), k), ok, function="fakesnow.conn.FakeSnowflakeConnection.__init__", case={"order": order, "database": db, "schema": sch},
+                   expected=f"session at {db.upper()}.{sch.upper()}", actual=detail)
+        # every connection still resolves the unqualified name to its own table, which holds exactly its own row(s)
+        for db, sch, c in conns:
+            try:
+                got = c.cursor().execute("select distinct w from marker").fetchall()
+                ok, detail = got == [(f"{db.lower()}.{sch.lower()}",)], repr(got)
+            except Exception as e:  # noqa: BLE001
+                ok, detail = False, f"{type(e).__name__}: {str(e)[:160]}"
+            t.case(f"connect-seq:{'-'.join(map(str, order))}:{db}.{sch}:own-table", ("connect-seq-own", tuple(order), db, sch), ok, function="fakesnow.conn.FakeSnowflakeConnection.__init__", case={"order": order, "database": db, "schema": sch},
+                   expected="the unqualified table of this connection's own database.schema", actual=detail)
+    return t.result(bound=f"histories of length <= {maxlen} over {len(OPS)} statements, 2 connections; {len(GUARDS)} guard cases; 3 orders of 6 connects sharing database / schema names")
 
 
 def replay(case, repo):
